@@ -93,6 +93,9 @@ def generate(rng, tier, shard, nshards):
                     continue
                 n = int(rng.integers(5, 61))
                 g, a, m = history(rng, n)
+                if rep % 3:            # sensor drop-outs (all-zero rows after the first sample): the fall-back paths must also be the same in both modes
+                    for arr in ((m,) if rep % 3 == 1 else ((a,), (a, m))[(k // 2) % 2]):   # every configuration sees a magnetometer-only drop-out
+                        arr[rng.choice(np.arange(1, n), size=min(n - 1, int(rng.integers(1, 4))), replace=False)] = 0.0
                 yield Case("bs", "bs:explicit-params" if explicit else "bs:default-params", cfg=name, kw=params_for(rng, name, explicit),
                            g=g, a=a, m=m, seed=int(rng.integers(2**31)), order=(2 * rep + int(explicit)) % 7)
     for i in range(gens.budget(24, tier, nshards, mult=6)):
@@ -229,7 +232,12 @@ def check_bs(case, ctx):
         ctx.note("UKF raised LinAlgError on this history (C03): batch-vs-stream not evaluated")
     elif name in STREAMERS or name.startswith("AngularRate"):
         r2 = "batch-vs-stream:" + name
-        if ctx.returned(b1, clause="batch run", route=r2):
+        dropouts = bool((~np.any(a, axis=1)).any() or (~np.any(m, axis=1)).any())
+        if dropouts:
+            ctx.note("history with drop-outs")
+        if dropouts and not b1.ok and isinstance(b1.exc, ValueError):
+            ctx.note("batch run refused a dropped-out sample with ValueError (C13's business): batch-vs-stream not evaluated")
+        elif ctx.returned(b1, clause="batch run", route=r2):
             B = b1.value
             if ctx.ok("batch output has one quaternion per sample", B.shape == (len(g), 4), {"shape": list(B.shape)}, route=r2):
                 s1 = call(run_stream, name, kw, B[0], g, a, m, seed, order)
